@@ -1041,9 +1041,10 @@ func ruleProcHandle(c *Ctx) {
 // asynchronously after GRPCBroker.Close, while the plugin process exits as soon
 // as the main gRPC server has stopped (Serve returns when DoneCh is closed).
 // The brokered listeners' socket files are therefore removed only if
-//   (a) every listener Accept creates on a successful path is recorded in the broker,
-//   (b) GRPCBroker.Close closes every recorded listener synchronously, and
-//   (c) GRPCServer.Stop closes the broker before it stops the server.
+//
+//	(a) every listener Accept creates on a successful path is recorded in the broker,
+//	(b) GRPCBroker.Close closes every recorded listener synchronously, and
+//	(c) GRPCServer.Stop closes the broker before it stops the server.
 func ruleBrokerListeners(c *Ctx) {
 	p := c.P
 	acc, cl, stop := p.Fn("GRPCBroker.Accept"), p.Fn("GRPCBroker.Close"), p.Fn("GRPCServer.Stop")
